@@ -147,6 +147,38 @@ type lsState struct {
 	regType map[types.Object]string    // declared type text
 	fieldOf map[types.Object]string    // any struct field of the anchor packages -> "dir.Type.field"
 	rows    []lsRow
+	fns     map[string]*lsFn
+	hcs     []lsHC
+}
+
+// lsFn: what one function does to locks ON THE GOROUTINE THAT CALLS IT: the locks it acquires
+// itself (on its own receiver, or package-level ones) and the functions it calls (methods on
+// its own receiver, package-level functions of its package)
+type lsFn struct {
+	name   string
+	direct map[string]bool
+	calls  map[string]bool
+}
+
+// lsHC: a call made while a lock is held, on the object the lock belongs to
+type lsHC struct {
+	fn     string
+	line   int
+	lock   string
+	excl   bool
+	callee string
+}
+
+func (s *lsState) fnRow(name string) *lsFn {
+	if s.fns == nil {
+		s.fns = map[string]*lsFn{}
+	}
+	f := s.fns[name]
+	if f == nil {
+		f = &lsFn{name: name, direct: map[string]bool{}, calls: map[string]bool{}}
+		s.fns[name] = f
+	}
+	return f
 }
 
 type lsRef struct {
@@ -542,6 +574,7 @@ type lsWalker struct {
 	nAcc  int
 	async bool
 	pend  []lsRow // Unknown rows about locks, kept only if the function touches a registry
+	recv  string  // name of the method receiver ("" for a plain function)
 }
 
 type lsHeld []lsGuard
@@ -681,6 +714,9 @@ func (w *lsWalker) stmt(st ast.Stmt, held lsHeld) (lsHeld, bool) {
 					w.unknown(c.Pos(), "lock operation on an expression that cannot be named: "+printNode(w.s.fset, c), true)
 					return held, false
 				}
+				if op == "Lock" || op == "RLock" {
+					w.acquire(c.Pos(), name, base, held)
+				}
 				switch op {
 				case "Lock":
 					return held.add(lsGuard{name, true, base}), false
@@ -691,6 +727,7 @@ func (w *lsWalker) stmt(st ast.Stmt, held lsHeld) (lsHeld, bool) {
 				}
 			}
 			if name, ok := w.onceDo(c); ok {
+				w.acquire(c.Pos(), name, "", held)
 				se := c.Fun.(*ast.SelectorExpr)
 				w.expr(se.X, held, true)
 				lit := c.Args[0].(*ast.FuncLit)
@@ -816,6 +853,74 @@ func (w *lsWalker) stmt(st ast.Stmt, held lsHeld) (lsHeld, bool) {
 	}
 	w.unknown(st.Pos(), "statement form not handled: "+fmt.Sprintf("%T", st), true)
 	return held, false
+}
+
+// acquire: this function takes lock `name` itself, on the goroutine that runs it (not in a
+// closure started with go / kept as a value).  Only locks of the function's own receiver and
+// package-level locks are attributed to it.  Taking a lock that is already held lexically is
+// recorded as a call, under that lock, of a synthetic function that acquires it.
+func (w *lsWalker) acquire(pos token.Pos, name, base string, held lsHeld) {
+	if w.async {
+		return
+	}
+	me := lsShort(w.pk.dir) + "." + w.fn
+	if base == "" || base == w.recv {
+		w.s.fnRow(me).direct[name] = true
+	}
+	for _, g := range held {
+		if g.name == name && g.base == base && (!strings.HasPrefix(name, "once:") || g.excl) {
+			line := w.s.fset.Position(pos).Line
+			syn := fmt.Sprintf("%s$relock@%d", me, line)
+			w.s.fnRow(syn).direct[name] = true
+			w.s.hcs = append(w.s.hcs, lsHC{fn: me, line: line, lock: name, excl: g.excl, callee: syn})
+		}
+	}
+}
+
+// calleeOf: the package-local function a call designates and the text of its receiver
+// expression ("" for a plain function); ok=false for anything else
+func (w *lsWalker) calleeOf(c *ast.CallExpr) (id, recvText string, ok bool) {
+	switch f := c.Fun.(type) {
+	case *ast.Ident:
+		if o, isf := w.pk.info.Uses[f].(*types.Func); isf && o.Pkg() == w.pk.tpkg {
+			if fid := w.s.objFuncID(w.pk.dir, o); fid != "" {
+				return lsShort(fid), "", true
+			}
+		}
+	case *ast.SelectorExpr:
+		if o, isf := w.pk.info.Uses[f.Sel].(*types.Func); isf && o.Pkg() == w.pk.tpkg {
+			if sig, _ := o.Type().(*types.Signature); sig != nil && sig.Recv() != nil {
+				if fid := w.s.objFuncID(w.pk.dir, o); fid != "" {
+					return lsShort(fid), printNode(w.s.fset, f.X), true
+				}
+			}
+		}
+	}
+	return "", "", false
+}
+
+// noteCall: a call on the current goroutine (not `go`): edge of the same-object call graph and,
+// when a lock of that object (or a package-level lock) is held, a held-call row
+func (w *lsWalker) noteCall(c *ast.CallExpr, held lsHeld) {
+	if w.async {
+		return
+	}
+	callee, rt, ok := w.calleeOf(c)
+	if !ok {
+		return
+	}
+	me := lsShort(w.pk.dir) + "." + w.fn
+	if rt == "" || rt == w.recv {
+		w.s.fnRow(me).calls[callee] = true
+	}
+	for _, g := range held {
+		if strings.HasPrefix(g.name, "once:") && !g.excl {
+			continue
+		}
+		if g.base == "" || (rt != "" && g.base == rt) {
+			w.s.hcs = append(w.s.hcs, lsHC{fn: me, line: w.s.fset.Position(c.Pos()).Line, lock: g.name, excl: g.excl, callee: callee})
+		}
+	}
 }
 
 func (w *lsWalker) clauses(b *ast.BlockStmt, held lsHeld) lsHeld {
@@ -959,6 +1064,9 @@ var lsAtomicWrite = map[string]bool{"AddInt32": true, "AddInt64": true, "AddUint
 var lsAtomicRead = map[string]bool{"LoadInt32": true, "LoadInt64": true, "LoadUint32": true, "LoadUint64": true, "LoadPointer": true}
 
 func (w *lsWalker) call(c *ast.CallExpr, held lsHeld, isGo bool) {
+	if !isGo {
+		w.noteCall(c, held)
+	}
 	// builtins that write their first argument
 	if id, ok := c.Fun.(*ast.Ident); ok && (id.Name == "delete" || id.Name == "copy" || id.Name == "clear") && len(c.Args) > 0 {
 		if w.pk.info.Uses[id] == nil || w.pk.info.Uses[id].Pkg() == nil {
@@ -1201,6 +1309,10 @@ func xlateLockset(repo, out string) {
 					continue
 				}
 				w := &lsWalker{s: s, pk: pk, file: pk.names[i], fn: lsFuncName(fd), fnID: s.funcID(pk.dir, fd)}
+				if fd.Recv != nil && len(fd.Recv.List) > 0 && len(fd.Recv.List[0].Names) > 0 {
+					w.recv = fd.Recv.List[0].Names[0].Name
+				}
+				s.fnRow(lsShort(pk.dir) + "." + w.fn)
 				w.block(fd.Body.List, nil)
 				s.rows = append(s.rows, w.rows...)
 				if w.nAcc > 0 {
@@ -1225,7 +1337,7 @@ func xlateLockset(repo, out string) {
 	var b strings.Builder
 	b.WriteString("(* GENERATED by tools/xlate lockset from the repository working tree - do not edit.\n")
 	b.WriteString("   One row per access site of a shared registry of the client (C20). *)\n")
-	b.WriteString("From Coq Require Import String List NArith.\nFrom SeataV Require Import Conc.LockSet.\nImport ListNotations.\nOpen Scope string_scope.\n\n")
+	b.WriteString("From Coq Require Import String List NArith.\nFrom SeataV Require Import Conc.LockSet Conc.Reent.\nImport ListNotations.\nOpen Scope string_scope.\n\n")
 	b.WriteString("Definition ls_table : list access := [\n")
 	for i, r := range s.rows {
 		sep := ";"
@@ -1271,13 +1383,93 @@ func xlateLockset(repo, out string) {
 	b.WriteString("].\n")
 	b.WriteString("\n(* pooled connections taken with <db>.Conn(ctx): (function, variable, given back?) *)\n")
 	b.WriteString("Definition ls_brackets : list (string * string * bool) := [\n")
-	br := s.brackets()
+	br, exits := s.brackets()
 	for i, r := range br {
 		sep := ";"
 		if i == len(br)-1 {
 			sep = ""
 		}
 		fmt.Fprintf(&b, "  (%s, %s, %v)%s\n", coqStr(r[0]), coqStr(r[1]), r[2] == "true", sep)
+	}
+	b.WriteString("].\n")
+	b.WriteString("\n(* exits reached with the connection still open: (function, variable), line *)\n")
+	b.WriteString("Definition ls_open_exits : list (string * string * N) := [\n")
+	for i, r := range exits {
+		sep := ";"
+		if i == len(exits)-1 {
+			sep = ""
+		}
+		fmt.Fprintf(&b, "  (%s, %s, %s%%N)%s\n", coqStr(r[0]), coqStr(r[1]), r[2], sep)
+	}
+	b.WriteString("].\n")
+	// ---- re-entrancy: per function the locks it takes on its caller's goroutine, its same-object
+	// callees, and the closure of both (a certificate the Coq side re-checks for closedness)
+	var names []string
+	for n := range s.fns {
+		names = append(names, n)
+	}
+	sort.Strings(names)
+	may := map[string]map[string]bool{}
+	for _, n := range names {
+		may[n] = map[string]bool{}
+		for l := range s.fns[n].direct {
+			may[n][l] = true
+		}
+	}
+	for changed := true; changed; {
+		changed = false
+		for _, n := range names {
+			for g := range s.fns[n].calls {
+				for l := range may[g] {
+					if !may[n][l] {
+						may[n][l] = true
+						changed = true
+					}
+				}
+			}
+		}
+	}
+	strs := func(m map[string]bool) string {
+		var l []string
+		for k := range m {
+			l = append(l, coqStr(k))
+		}
+		sort.Strings(l)
+		return "[" + strings.Join(l, "; ") + "]"
+	}
+	b.WriteString("\n(* function, locks it acquires itself, same-object callees, closure *)\n")
+	b.WriteString("Definition ls_funcs : list fn_row := [\n")
+	first := true
+	for _, n := range names {
+		f := s.fns[n]
+		if len(f.direct) == 0 && len(f.calls) == 0 {
+			continue
+		}
+		if !first {
+			b.WriteString(";\n")
+		}
+		first = false
+		fmt.Fprintf(&b, "  mkFn %s %s %s %s", coqStr(n), strs(f.direct), strs(f.calls), strs(may[n]))
+	}
+	b.WriteString("\n].\n")
+	b.WriteString("\n(* calls made while a lock of the same object (or a package-level lock) is held *)\n")
+	b.WriteString("Definition ls_held_calls : list hc_row := [\n")
+	sort.SliceStable(s.hcs, func(i, j int) bool {
+		if s.hcs[i].fn != s.hcs[j].fn {
+			return s.hcs[i].fn < s.hcs[j].fn
+		}
+		return s.hcs[i].line < s.hcs[j].line
+	})
+	for i, h := range s.hcs {
+		sep := ";"
+		if i == len(s.hcs)-1 {
+			sep = ""
+		}
+		m := "Shared"
+		if h.excl {
+			m = "Excl"
+		}
+		fmt.Fprintf(&b, "  mkHc %s %d%%N %s %s %s%s\n", coqStr(h.fn), h.line, coqStr(h.lock), m, coqStr(h.callee), sep)
 	}
 	b.WriteString("].\n")
 	if err := os.WriteFile(out, []byte(b.String()), 0o644); err != nil {
@@ -1289,11 +1481,15 @@ func xlateLockset(repo, out string) {
 var lsBracketDirs = []string{"pkg/datasource/sql", "pkg/datasource/sql/undo/base",
 	"pkg/datasource/sql/datasource/base", "pkg/datasource/sql/datasource/mysql"}
 
-// brackets: every `v, err := X.Conn(arg)` in the listed directories, and whether the
-// function gives v back: a call v.Close() (deferred or not) anywhere in the function,
-// or v handed to a function of these directories that defers Close on that parameter.
-func (s *lsState) brackets() [][3]string {
-	closers := map[string]int{} // function name -> index of the parameter it closes
+// brackets: every `v, err := X.Conn(arg)` in the listed directories, and whether the function
+// (or function literal) that took v gives it back ON EVERY PATH: walking the statements after
+// the acquisition, v is given back by `v.Close()` (statement, `if err = v.Close(); ...`,
+// deferred, or inside a deferred literal), by handing v to a function of these directories
+// that defers Close on that parameter before any return, or by returning / storing v itself
+// (ownership moves).  A `return` (or the end of the body) reached while v is still open is an
+// unclosed exit - except the error check that immediately follows the acquisition, where v is nil.
+func (s *lsState) brackets() ([][3]string, [][3]string) {
+	closers := map[string]int{} // function name -> index of the parameter it always closes
 	for _, d := range lsBracketDirs {
 		pk := s.pkgs[d]
 		if pk == nil {
@@ -1308,7 +1504,7 @@ func (s *lsState) brackets() [][3]string {
 				idx := 0
 				for _, fl := range fd.Type.Params.List {
 					for _, nm := range fl.Names {
-						if printNode(s.fset, fl.Type) == "*sql.Conn" && lsDefersClose(fd.Body, nm.Name) {
+						if printNode(s.fset, fl.Type) == "*sql.Conn" && lsDefersCloseFirst(fd.Body, nm.Name) {
 							closers[fd.Name.Name] = idx
 						}
 						idx++
@@ -1317,7 +1513,7 @@ func (s *lsState) brackets() [][3]string {
 			}
 		}
 	}
-	var out [][3]string
+	var out, exits [][3]string
 	for _, d := range lsBracketDirs {
 		pk := s.pkgs[d]
 		if pk == nil {
@@ -1329,49 +1525,295 @@ func (s *lsState) brackets() [][3]string {
 				if !ok || fd.Body == nil {
 					continue
 				}
+				// every function-like body (the declaration and each literal) is walked on its own
+				var bodies []*ast.BlockStmt
+				bodies = append(bodies, fd.Body)
 				ast.Inspect(fd.Body, func(n ast.Node) bool {
-					as, ok := n.(*ast.AssignStmt)
-					if !ok || len(as.Rhs) != 1 || len(as.Lhs) != 2 {
-						return true
+					if l, ok := n.(*ast.FuncLit); ok {
+						bodies = append(bodies, l.Body)
 					}
-					c, ok := as.Rhs[0].(*ast.CallExpr)
-					if !ok || len(c.Args) != 1 {
-						return true
-					}
-					se, ok := c.Fun.(*ast.SelectorExpr)
-					if !ok || se.Sel.Name != "Conn" {
-						return true
-					}
-					v, ok := as.Lhs[0].(*ast.Ident)
-					if !ok {
-						return true
-					}
-					closed := false
-					ast.Inspect(fd.Body, func(m ast.Node) bool {
-						cc, ok := m.(*ast.CallExpr)
-						if !ok {
-							return true
-						}
-						if s2, ok := cc.Fun.(*ast.SelectorExpr); ok {
-							if id, ok := s2.X.(*ast.Ident); ok && id.Name == v.Name && s2.Sel.Name == "Close" && len(cc.Args) == 0 {
-								closed = true
-							}
-							if k, ok := closers[s2.Sel.Name]; ok && k < len(cc.Args) {
-								if id, ok := cc.Args[k].(*ast.Ident); ok && id.Name == v.Name {
-									closed = true
-								}
-							}
-						}
-						return true
-					})
-					out = append(out, [3]string{lsShort(d) + "." + lsFuncName(fd), v.Name, fmt.Sprint(closed)})
 					return true
 				})
+				for _, body := range bodies {
+					for _, acq := range lsAcquisitions(body) {
+						v := acq.Lhs[0].(*ast.Ident).Name
+						bw := &lsBrWalker{s: s, v: v, acq: acq, closers: closers}
+						st, term := bw.block(body.List, 0)
+						if !term && st == 1 {
+							bw.exits = append(bw.exits, s.fset.Position(body.Rbrace).Line)
+						}
+						name := lsShort(d) + "." + lsFuncName(fd)
+						out = append(out, [3]string{name, v, fmt.Sprint(len(bw.exits) == 0)})
+						for _, l := range bw.exits {
+							exits = append(exits, [3]string{name, v, fmt.Sprint(l)})
+						}
+					}
+				}
 			}
 		}
 	}
 	sort.Slice(out, func(i, j int) bool { return out[i][0]+out[i][1] < out[j][0]+out[j][1] })
-	return out
+	return out, exits
+}
+
+// lsAcquisitions: `v, err := X.Conn(arg)` statements directly in this body (not in nested literals)
+func lsAcquisitions(body *ast.BlockStmt) []*ast.AssignStmt {
+	var res []*ast.AssignStmt
+	ast.Inspect(body, func(n ast.Node) bool {
+		if _, ok := n.(*ast.FuncLit); ok {
+			return false
+		}
+		as, ok := n.(*ast.AssignStmt)
+		if !ok || len(as.Rhs) != 1 || len(as.Lhs) != 2 {
+			return true
+		}
+		c, ok := as.Rhs[0].(*ast.CallExpr)
+		if !ok || len(c.Args) != 1 {
+			return true
+		}
+		if se, ok := c.Fun.(*ast.SelectorExpr); !ok || se.Sel.Name != "Conn" {
+			return true
+		}
+		if _, ok := as.Lhs[0].(*ast.Ident); ok {
+			res = append(res, as)
+		}
+		return true
+	})
+	return res
+}
+
+// lsBrWalker: state 0 = v not acquired yet, 1 = open, 2 = given back
+type lsBrWalker struct {
+	s       *lsState
+	v       string
+	acq     *ast.AssignStmt
+	closers map[string]int
+	exits   []int
+	fresh   bool // the previous statement was the acquisition
+}
+
+// gives: does evaluating n give v back (Close call, closer call)?
+func (b *lsBrWalker) gives(n ast.Node) bool {
+	if n == nil {
+		return false
+	}
+	found := false
+	ast.Inspect(n, func(m ast.Node) bool {
+		if _, ok := m.(*ast.FuncLit); ok {
+			return false
+		}
+		cc, ok := m.(*ast.CallExpr)
+		if !ok {
+			return true
+		}
+		if s2, ok := cc.Fun.(*ast.SelectorExpr); ok {
+			if id, ok := s2.X.(*ast.Ident); ok && id.Name == b.v && s2.Sel.Name == "Close" && len(cc.Args) == 0 {
+				found = true
+			}
+			if k, ok := b.closers[s2.Sel.Name]; ok && k < len(cc.Args) {
+				if id, ok := cc.Args[k].(*ast.Ident); ok && id.Name == b.v {
+					found = true
+				}
+			}
+		}
+		if id, ok := cc.Fun.(*ast.Ident); ok {
+			if k, ok := b.closers[id.Name]; ok && k < len(cc.Args) {
+				if a, ok := cc.Args[k].(*ast.Ident); ok && a.Name == b.v {
+					found = true
+				}
+			}
+		}
+		return true
+	})
+	return found
+}
+
+func (b *lsBrWalker) mentions(e ast.Expr) bool {
+	id, ok := e.(*ast.Ident)
+	return ok && id.Name == b.v
+}
+
+func lsWorse(a, c int) int {
+	// open (1) is the worst, then not-acquired (0), then given back (2)
+	if a == 1 || c == 1 {
+		return 1
+	}
+	if a == 0 || c == 0 {
+		return 0
+	}
+	return 2
+}
+
+func (b *lsBrWalker) block(list []ast.Stmt, st int) (int, bool) {
+	for _, x := range list {
+		var term bool
+		st, term = b.stmt(x, st)
+		if term {
+			return st, true
+		}
+	}
+	return st, false
+}
+
+func (b *lsBrWalker) stmt(x ast.Stmt, st int) (int, bool) {
+	fresh := b.fresh
+	b.fresh = false
+	switch v := x.(type) {
+	case nil:
+		return st, false
+	case *ast.AssignStmt:
+		if v == b.acq {
+			b.fresh = true
+			return 1, false
+		}
+		if st == 1 {
+			if b.gives(v) {
+				return 2, false
+			}
+			for _, r := range v.Rhs { // stored somewhere: ownership moves
+				if b.mentions(r) {
+					if _, isSel := v.Lhs[0].(*ast.SelectorExpr); isSel {
+						return 2, false
+					}
+				}
+			}
+		}
+		return st, false
+	case *ast.ExprStmt:
+		if st == 1 && b.gives(v) {
+			return 2, false
+		}
+		if c, ok := v.X.(*ast.CallExpr); ok {
+			if id, ok := c.Fun.(*ast.Ident); ok && id.Name == "panic" {
+				return st, true
+			}
+		}
+		return st, false
+	case *ast.DeferStmt:
+		if st == 1 {
+			if b.gives(v.Call) {
+				return 2, false
+			}
+			if lit, ok := v.Call.Fun.(*ast.FuncLit); ok && b.gives(lit.Body) {
+				return 2, false
+			}
+		}
+		return st, false
+	case *ast.ReturnStmt:
+		if st == 1 {
+			ok := b.gives(v)
+			for _, r := range v.Results {
+				if b.mentions(r) {
+					ok = true
+				}
+			}
+			if !ok {
+				b.exits = append(b.exits, b.s.fset.Position(v.Pos()).Line)
+			}
+		}
+		return st, true
+	case *ast.BlockStmt:
+		return b.block(v.List, st)
+	case *ast.LabeledStmt:
+		return b.stmt(v.Stmt, st)
+	case *ast.IfStmt:
+		st, _ = b.stmt(v.Init, st)
+		if st == 1 && b.gives(v.Cond) {
+			st = 2
+		}
+		inner := st
+		if fresh && st == 1 && lsIsErrCheck(v.Cond) {
+			inner = 0 // the acquisition failed: there is nothing to give back
+		}
+		h1, t1 := b.block(v.Body.List, inner)
+		h2, t2 := st, false
+		if v.Else != nil {
+			h2, t2 = b.stmt(v.Else, st)
+		}
+		if fresh && inner == 0 && !t1 {
+			h1 = st
+		}
+		switch {
+		case t1 && t2:
+			return st, true
+		case t1:
+			return h2, false
+		case t2:
+			return h1, false
+		}
+		return lsWorse(h1, h2), false
+	case *ast.ForStmt:
+		st, _ = b.stmt(v.Init, st)
+		h, _ := b.block(v.Body.List, st)
+		return lsWorse(st, h), false
+	case *ast.RangeStmt:
+		h, _ := b.block(v.Body.List, st)
+		return lsWorse(st, h), false
+	case *ast.SwitchStmt, *ast.TypeSwitchStmt, *ast.SelectStmt:
+		var body *ast.BlockStmt
+		switch y := v.(type) {
+		case *ast.SwitchStmt:
+			st, _ = b.stmt(y.Init, st)
+			body = y.Body
+		case *ast.TypeSwitchStmt:
+			body = y.Body
+		case *ast.SelectStmt:
+			body = y.Body
+		}
+		out := st
+		for _, c := range body.List {
+			var l []ast.Stmt
+			switch cc := c.(type) {
+			case *ast.CaseClause:
+				l = cc.Body
+			case *ast.CommClause:
+				l = cc.Body
+			}
+			h, t := b.block(l, st)
+			if !t {
+				out = lsWorse(out, h)
+			}
+		}
+		return out, false
+	}
+	return st, false
+}
+
+func lsIsErrCheck(e ast.Expr) bool {
+	be, ok := e.(*ast.BinaryExpr)
+	if !ok || be.Op != token.NEQ {
+		return false
+	}
+	x, ok1 := be.X.(*ast.Ident)
+	y, ok2 := be.Y.(*ast.Ident)
+	return ok1 && ok2 && x.Name == "err" && y.Name == "nil"
+}
+
+// lsDefersCloseFirst: `defer name.Close()` is a top-level statement of the body and no return precedes it
+func lsDefersCloseFirst(body *ast.BlockStmt, name string) bool {
+	for _, st := range body.List {
+		hasRet := false
+		ast.Inspect(st, func(n ast.Node) bool {
+			if _, ok := n.(*ast.FuncLit); ok {
+				return false
+			}
+			if _, ok := n.(*ast.ReturnStmt); ok {
+				hasRet = true
+			}
+			return true
+		})
+		if d, ok := st.(*ast.DeferStmt); ok {
+			if se, ok := d.Call.Fun.(*ast.SelectorExpr); ok && se.Sel.Name == "Close" {
+				if id, ok := se.X.(*ast.Ident); ok && id.Name == name {
+					return true
+				}
+			}
+		}
+		if hasRet {
+			return false
+		}
+	}
+	return false
 }
 
 func lsDefersClose(body *ast.BlockStmt, name string) bool {
